@@ -699,10 +699,8 @@ class Scheduler:
                     self
                 )
             )
-            self.server.publish_queue.put(
-                self.data_store_mgr.publish_deltas)
-            # Non-async sleep - yield to other threads rather than event loop
-            sleep(0)
+            # Publish the initial data (unless already published).
+            self._publish_deltas()
             self.profiler.start()
             while True:  # MAIN LOOP
                 await self._main_loop()
